@@ -139,11 +139,11 @@ def entryLit0 : P (String × List Nat × Nat) := do
 def opProgram : P (List (Op String Nat) × Bool) := do
   let name ← tok
   match name with
-  | "append" => pure ([.append 0 1], false)
+  | "append" => do let aLen ← nat; let bLen ← nat; pure ([.append 0 1 aLen bLen], false)
   | "setindices" => do let n ← nat; let sp ← nat; pure ([.setIndices 0 (zeros n) sp], false)
   | "setmaterials" => do let n ← nat; let sp ← nat; pure ([.setMaterials 0 (zeros n) sp], false)
   | "sharematerials" => pure ([.shareMaterials 0 1], false)
-  | "topointcloud" => pure ([.toPointCloud 0 1], false)
+  | "topointcloud" => do let n ← nat; pure ([.toPointCloud 0 1 n], false)
   | "clearattrs" => pure ([.clearAttrs 0], false)
   | "setdata" => do
       let kind ← nat; let n ← nat; let es ← times n entryLit
@@ -160,7 +160,7 @@ def opProgram : P (List (Op String Nat) × Bool) := do
       -- repeat.Mesh: result := EmptyMesh(topo); for each transform: result = result.Append(mesh.ApplyTRS(t))
       let k ← nat; let n ← nat
       let body := (List.range k).flatMap fun i =>
-        [Op.setAttr 0 2 "Position" (zeros n) 0, Op.append (1 + 2 * i) (2 + 2 * i)]
+        [Op.setAttr 0 2 "Position" (zeros n) 0, Op.append (1 + 2 * i) (2 + 2 * i) (i * n) n]
       pure (body, true)
   | "identity" => pure ([], false)
   | _ => failure
@@ -248,18 +248,45 @@ def newMeshOf (o : MeshObs String String) : Op String String :=
   .newMesh o.topo o.indices 0 o.materials 0 (o.attrs.map fun es => es.map fun e => (e.1, e.2, 0))
 
 def appendRequest : P String := do
+  -- what the two AttributeLength() calls resolve to (forced: the harness sends this line only for meshes with one
+  -- common attribute length)
+  let aLen ← nat; let bLen ← nat
   let a ← obsP
   expect "|"
   let b ← obsP
-  let s := run EV ⟨Heap.empty, []⟩ [newMeshOf a, newMeshOf b, .append 0 1]
+  let s := run EV ⟨Heap.empty, []⟩ [newMeshOf a, newMeshOf b, .append 0 1 aLen bLen]
   -- two models must agree: the heap-level `appendCopy` read back with `obs`, and the pure `pureAppend` (append_refines)
-  match s.pool[2]?, pureAppend EV a b with
+  match s.pool[2]?, pureAppend EV aLen bLen a b with
   | some r, some p => pure (if obs s.heap r == p then showObs p else "models-disagree")
   | none, none => pure "panic"
   | _, _ => pure "models-disagree"
 
+/-- the answers `AttributeLength()` may give for a mesh showing `o` -/
+def lenCandidates (o : MeshObs String String) : List Nat :=
+  match (lensObs o).eraseDups with
+  | [] => [0]
+  | l => l
+
+/-- ragged arguments: the implementation's result must be `pureAppend` for SOME resolution of the two map iterations -/
+def appendInSetRequest : P String := do
+  let a ← obsP
+  expect "|"
+  let b ← obsP
+  expect "|"
+  let r ← obsP
+  let want := showObs r
+  let ok := (lenCandidates a).any fun aLen => (lenCandidates b).any fun bLen =>
+    match pureAppend EV aLen bLen a b with
+    | some p => showObs p == want
+    | none => false
+  pure (boolStr ok)
+
 def handle (op : String) (args : List String) : Option String :=
   match op with
+  | "c01.holds.append_in_set" =>
+    match appendInSetRequest.run args with
+    | some (s, _) => some s
+    | none => some "false"
   | "c01.shape" => (shapeRequest.run args).map (·.1)
   | "c01.append" => (appendRequest.run args).map (·.1)
   | "c01.holds.rederive" =>
